@@ -337,14 +337,29 @@ func oracleC05(c ECase, outs []drv.ObsOut) string {
 	var max *drv.U128
 	primary := 0
 	last := map[int]*drv.U128{}
+	negotiated, gone := map[int]bool{}, map[int]bool{}
 	for i, st := range c.Steps {
 		o := outs[i]
 		if o.Hang != "" {
 			return fmt.Sprintf("step %d: %s", i, o.Hang)
 		}
+		wasGone := gone[st.S]
+		if o.End != nil || st.K == "close" || st.K == "abort" {
+			gone[st.S] = true
+		}
 		switch st.K {
+		case "connect":
+			negotiated[st.S], gone[st.S] = false, o.End != nil
+		case "params":
+			if len(o.Resps) == 1 && o.Resps[0].GetSessionParamsResult() != nil && o.End == nil && st.Red == 1 {
+				negotiated[st.S] = true
+			}
 		case "elect":
 			if len(o.Resps) != 1 || o.Resps[0].GetElectionId() == nil {
+				// every non-zero id is a valid id: on a live SINGLE_PRIMARY session it is answered with the election id
+				if negotiated[st.S] && !wasGone && st.ID != nil && !st.ID.IsZero() {
+					return fmt.Sprintf("step %d: session %d announced the valid id (%d,%d) and got no election response (end of RPC: %+v)", i, st.S, st.ID.Hi, st.ID.Lo, o.End)
+				}
 				continue // rejected announcement (RPC ended)
 			}
 			id := *st.ID
